@@ -100,9 +100,21 @@ def stored_digest(s):
 
 
 def stats_digest(s):
-    vals = [np.asarray(getattr(s, k)) for k in STATS_KEYS]
-    lz = s.log_z
-    return digest(vals + [None if lz is None else float(lz), float(s.n_eff)])
+    """Digest of the statistics a user can observe.  Entries of shells that hold no visible sample are
+    canonicalised: the code leaves NaN or -inf there depending on which path touched the shell last,
+    and no accessor can tell the difference."""
+    n = np.asarray(s.shell_n)
+    empty = n == 0
+    vals = [n, np.asarray(s.shell_n_sample)]
+    for k in ('shell_n_eff', 'shell_log_l', 'shell_log_v'):
+        a = np.array(getattr(s, k), dtype=float, copy=True)
+        if len(a) == len(empty):
+            a[empty] = 0.0
+        vals.append(a)
+    with np.errstate(all='ignore'):
+        lz = s.log_z
+        ne = s.n_eff
+    return digest(vals + [None if lz is None else float(lz), float(ne)])
 
 
 def essential_parts(s, transfer=None):
